@@ -28,6 +28,8 @@ impl Transport {
 			};
 			(loop_start, loop_end)
 		});
+		// a loop region that ends at or before its start has no frames to loop over
+		let loop_region = loop_region.filter(|(loop_start, loop_end)| loop_end > loop_start);
 		Self {
 			position: if reverse {
 				num_frames - 1 - start_position
@@ -53,6 +55,10 @@ impl Transport {
 			};
 			(loop_start, loop_end)
 		});
+		// a loop region that ends at or before its start has no frames to loop over
+		self.loop_region = self
+			.loop_region
+			.filter(|(loop_start, loop_end)| loop_end > loop_start);
 	}
 
 	pub fn increment_position(&mut self, num_frames: usize) {
